@@ -20,4 +20,6 @@ let table : (string * (val0 -> val0)) list = [
   "chk_c13_ws", chk_c13_ws;
   "chk_c11", chk_c11;
   "enum_c11", enum_c11;
+  "chk_c15", chk_c15;
+  "chk_c15_race", chk_c15_race;
 ]
